@@ -195,6 +195,18 @@ def add_xret_methods(P: type, impl: Any, methods: list[dict[str, Any]]) -> None:
         setattr(type(impl), m["name"], fn)
 
 
+def boom_class(name: str | None) -> type[BaseException]:
+    """The exception class the on_log callback raises: a private class by default, or one that coincides with classes the
+    client's own code handles (transport errors, end-of-stream signals, …)."""
+    if name is None:
+        return LogBoom
+    if name == "ArrowInvalid":
+        return pa.ArrowInvalid
+    import builtins
+
+    return getattr(builtins, name)  # type: ignore[no-any-return]
+
+
 class LogBoom(Exception):
     """Raised by the client's on_log callback when the fault plan says so."""
 
@@ -316,7 +328,7 @@ def run_history(sdesc: dict[str, Any], cdesc: dict[str, Any], script: list[list[
         pol["n"] = n + 1
         if (pol["mode"] == "once" and n == pol["k"]) or (pol["mode"] == "from" and n >= pol["k"]):
             cur.append(["logboom", n])
-            raise LogBoom(f"on_log raised at log {n}")
+            raise boom_class(pol.get("cls"))(f"on_log raised at log {n}")
         cur.append(_ev_log(m))
 
     from vgi_rpc.rpc import make_tcp_pair, make_unix_pair
@@ -355,6 +367,7 @@ def run_history(sdesc: dict[str, Any], cdesc: dict[str, Any], script: list[list[
                 try:
                     if k == "onlog":
                         pol["mode"], pol["k"] = (None, 0) if op[1] is None else (op[1][0], op[1][1])
+                        pol["cls"] = op[1][2] if op[1] is not None and len(op[1]) > 2 else None
                     elif k not in ("call", "open") and sess is None:
                         cur.append(["nosession"])
                     elif k == "call":
